@@ -315,7 +315,7 @@ func TestVerif_C10_e2e(t *testing.T) {
 		if ok && len(caps) != len(x.wires) {
 			ok, why = false, fmt.Sprintf("%d round trips but %d requests at the origin", len(x.wires), len(caps))
 		}
-		for k := 1; ok && k < len(caps); k++ {
+		for k := 1; ok && !tc.brokenContract() && k < len(caps); k++ {
 			if caps[k] != caps[0] {
 				ok, why = false, fmt.Sprintf("origin: attempt %d differs from attempt 0:\n%s\n---\n%s", k, caps[0], caps[k])
 			}
